@@ -420,6 +420,11 @@ def drive(prop_id, tier, seed_value, only=None, jobs=None, scale=1.0,
     jobs = jobs or int(os.environ.get("VERIF_JOBS", "16"))
     findings = [f for f in load_known_findings() if f["property"] == prop_id]
     known = [f for f in findings if f["status"] == "known"]
+    # development aid only: treat extra classifier keys as known ("sub:key|sub:key")
+    for item in filter(None, os.environ.get("VERIF_EXTRA_KNOWN", "").split("|")):
+        sub_name, _, key = item.partition(":")
+        known.append({"status": "known", "property": prop_id, "subcheck": sub_name,
+                      "key": key, "what": "(development) " + key, "probe": None})
 
     tasks = []
     for sub in prop.subchecks:
